@@ -400,8 +400,9 @@ def Cst.cf : Cst → Bool
   | .lam _ c1 _ c2 _ b => c1.isEmpty && c2.isEmpty && b.cf
   | .un op c _ e => c.isEmpty && e.cf && !(op == ['-'] && e.fusesMinus)
   | .bin l c1 _ _ c2 _ r => l.cf && c1.isEmpty && c2.isEmpty && r.cf
-  | .ite .. => false     -- the normaliser `Cst.norm` does not cover `if` yet
-  | .has .. => false     -- the normaliser `Cst.norm` does not cover `?` yet
+  | .ite c1 _ c c2 _ c3 _ t c4 _ c5 _ e =>
+    c.cf && t.cf && e.cf && c1.isEmpty && c2.isEmpty && c3.isEmpty && c4.isEmpty && c5.isEmpty
+  | .has e c1 _ c2 _ _ => e.cf && c1.isEmpty && c2.isEmpty
 def Items.cf : Items → Bool
   | .nil => true
   | .cmt _ _ _ => false
